@@ -752,6 +752,11 @@ pub struct OpRec {
 
 /// Runs a random (or tape-driven) legal history of edits on `g` and returns the model + output.
 pub fn run_history(g: &GenModule, rng: &mut Rng, cfg: &HistoryCfg, encodes: usize) -> Result<Outcome, String> {
+    run_history_with_plan(g, rng, cfg, encodes, &[])
+}
+
+/// Same, followed by an injection plan (special modes allowed) on the module before it is encoded (C04 / C05 scenarios).
+pub fn run_history_with_plan(g: &GenModule, rng: &mut Rng, cfg: &HistoryCfg, encodes: usize, plan: &[crate::props::lower::Inj]) -> Result<Outcome, String> {
     let raw_in = sym::decode(&g.bytes)?;
     let id_in = sym::idents(&raw_in);
     let model = Model::from_input(&raw_in, &id_in, Some(g));
@@ -779,6 +784,14 @@ pub fn run_history(g: &GenModule, rng: &mut Rng, cfg: &HistoryCfg, encodes: usiz
     let mut model = d.model;
     model.compute_must_fail();
     finish_bodies(&mut model);
+    if call_panic.is_none() {
+        for inj in plan {
+            if let Err(p) = crate::props::lower::apply_injection(&mut module, inj) {
+                call_panic = Some((format!("{:?}", inj), p));
+                break;
+            }
+        }
+    }
     if call_panic.is_some() {
         return Ok(Outcome { model, encoded: Err(PanicInfo::default()), call_panic, ops_done: done, second: None, third: None });
     }
